@@ -190,8 +190,39 @@ func lockSiteYield(l interface{}, mode byte, site string) {
 	if !ok {
 		return
 	}
+	if insideMapWalk() {
+		// Commit, applyLockRequests, Reset and GetSnapshot of the virtual state walk a Go map and call
+		// into other virtual states from inside the walk: a scheduling point there would let the map's
+		// iteration order decide which lock site a task reaches first (found by the determinism self-test)
+		return
+	}
 	x.lockYields++
 	x.yield(tx, x.currentAttempt(tx), "lock@"+site)
+}
+
+var mapWalkers = []string{"worldVirtualState).Commit", "worldVirtualState).applyLockRequests", "worldVirtualState).Reset", "worldVirtualState).GetSnapshot"}
+
+// insideMapWalk: is the lock site (the caller of common.SimAcquire) running below one of the map-walking
+// functions? The site's own function does not count: the first lock of Commit itself stays a scheduling point.
+func insideMapWalk() bool {
+	var pcs [24]uintptr
+	n := runtime.Callers(4, pcs[:]) // skip Callers, insideMapWalk, lockSiteYield, common.SimAcquire
+	frames := runtime.CallersFrames(pcs[:n])
+	first := true
+	for {
+		f, more := frames.Next()
+		if !first {
+			for _, w := range mapWalkers {
+				if strings.HasSuffix(f.Function, w) {
+					return true
+				}
+			}
+		}
+		first = false
+		if !more {
+			return false
+		}
+	}
 }
 
 func goid() uint64 {
